@@ -101,6 +101,8 @@ package client
 //@   callsite[C19] executeBatchWriteRequest: arg.fd == fd && arg.table != nil && *arg.table == table && arg.req == req && table in input.RequestItems
 //@   callsite[C19] handleBatchWriteRequestError: arg.table == table && arg.req == req && arg.unprocessed == unprocessed && arg.err == err
 //@   ensures[C19] result1 == nil ==> result0 != nil && result0.UnprocessedItems == unprocessed
+// C15 / C19: a batch reports success only after every table of the request has been walked to the end: no request is skipped
+//@   ensures[C15,C19] result1 == nil ==> exited(1)
 //@   loop 1:
 //@     invariant fresh(unprocessed) && unprocessed != nil && dom(input.RequestItems) == old(dom(input.RequestItems))
 //@   loop 2:
